@@ -114,6 +114,14 @@ def roundtrip(ctx, tag, res):
         ctx.count("nonfinite_or_none_statistics")
 
 
+# forecast / benchmark / catalog names written into the results
+NAMES = {"ascii": ("A", "B", "obs"),
+         "unicode": ("mod\u00e8le \u03a9-1", "Krak\u00f3w", "\u89b3\u6e2c catalog"),
+         "punct": ('a "quoted", name', "back\\slash / slash", "tab\tand {brace}")}
+# a C/POSIX locale without Python's UTF-8 mode: text files are ASCII unless an encoding is given
+C_LOCALE = {"LC_ALL": "C", "LANG": "C", "PYTHONUTF8": "0", "PYTHONCOERCECLOCALE": "0"}
+
+
 def check_case(ctx, case):
     if case["k"] == "region":
         return check_region(ctx, case)
@@ -121,12 +129,13 @@ def check_case(ctx, case):
     from csep.core.forecasts import CatalogForecast
     S = G.Setup(case["setup"])
     region = S.region()
-    fa = S.forecast(region, name="A")
+    NA, NB, NC = NAMES[case.get("name_style", "ascii")]
+    fa = S.forecast(region, name=NA)
     rb = numpy.array(case["rates_b"], dtype=float).reshape(S.rates.shape)
-    fb = S.forecast(region, rates=rb, name="B")
+    fb = S.forecast(region, rates=rb, name=NB)
 
     def cat():
-        return S.catalog(region)
+        return S.catalog(region, name=NC)
 
     n = len(S.obs)
     runs = [("poisson_N", lambda: P.number_test(fa, cat())),
@@ -241,10 +250,18 @@ def cases(draw):
     cats = [draw(st.lists(st.tuples(st.sampled_from(used), st.integers(0, nm - 1)).map(list), max_size=8)) for _ in range(J)]
     if not any(cats):
         cats[0] = [[used[0], 0]]
-    return {"k": "results", "setup": setup, "rates_b": rates_b, "cats": cats}
+    style = draw(st.sampled_from(["ascii", "ascii", "unicode", "punct"]))
+    return {"k": "results", "setup": setup, "rates_b": rates_b, "cats": cats, **({"name_style": style} if style != "ascii" else {})}
 
 
 def run(ctx):
+    # a handful of result cases with non-ASCII names replayed in a child interpreter started under the C locale without UTF-8 mode
+    child = cases().filter(lambda c: c["k"] == "results").map(lambda c: dict(c, name_style="unicode", child_env=C_LOCALE))
+    ctx.drive(child, ctx.n(2, 12), fn=lambda c, case: (check_case(c, case), c.record({"k": "results", "child_env": case.get("child_env"), "name_style": "unicode"}, True, "results:c_locale_child"))[0], salt=7)
+    return _run(ctx)
+
+
+def _run(ctx):
     def fn(c, case):
         check_case(c, case)
         c.record(case, True, case["k"])
